@@ -63,4 +63,24 @@ func runC20Lin(c *fw.Ctx, item *int64) {
 		c.Note("lin_execs:"+sc.Name, n)
 	}
 	c.Bound("admin_data_mixes", fmt.Sprint(len(scen)))
+	// scans over a table that no longer fits leveldb's memtable (10 MB: rows in table files) against requests that clear
+	// or shrink it while the scan has given up the table lock; no race detection needed for this (a scan must not crash)
+	huge := []string{"DropAll", "DropPrefix"}
+	if c.Thorough() {
+		huge = append(huge, "GC", "DeleteTable", "ModifyDrop")
+	}
+	seen := 0
+	for _, o := range huge {
+		*item++
+		if !c.Mine(*item) {
+			continue
+		}
+		if c.Expired() {
+			c.Incomplete("time budget reached before the large-table scenarios were explored")
+			break
+		}
+		p := c20Param{Side: "bt", Store: "mem", Fix: "huge", Threads: []string{"ReadBig", o}}
+		n := exploreRace(c, c20Scenario(c, p), 1, &seen)
+		c.Note("large_table_execs", n)
+	}
 }
